@@ -415,19 +415,55 @@ inductive Err
   | illTyped       -- (encoding only) a value that does not fit its slot; cannot arise from validated objects
 deriving DecidableEq, Repr
 
+/-- How an error surfaces inside a pydantic model validation: 2 = the validator raised something
+that is not a `ValueError` — it propagates at once; 1 = a validation error — it is collected,
+the remaining fields are still validated, and a `ValidationError` is raised at the end unless
+something propagated meanwhile; 0 = not an error for the code at all (an event slot silently
+holding a non-model). -/
+def Err.rank : Err → Nat
+  | .notDict => 1
+  | .missing => 1
+  | .laxOrInvalid => 1
+  | .badTag => 1
+  | .validation => 1
+  | .envelopeInvalid => 1
+  | .notModel => 0
+  | _ => 2
+
+/-- the error reported when a field failed with `e` and the remaining fields gave `rest` -/
+def combineErr {α : Type} (e : Err) (rest : Except Err α) : Err :=
+  match rest with
+  | .error e' => if e'.rank > e.rank then e' else e
+  | .ok _ => e
+
+/-- the error a rejected field value gives: a `SerializableException` validator that cannot even
+read its input raises (`TypeError` / `KeyError`: propagates); everything else is collected -/
+def fieldError (xenv : XEnv) (t : FTy) (v : Json) : Err :=
+  match t with
+  | .exc =>
+    match decodeExc xenv v with
+    | .error e => .exception e
+    | .ok _ => .laxOrInvalid
+  | _ => .laxOrInvalid
+
 /-- pydantic validation of the declared fields of an event class from the `fields` kwargs -/
 def validateFields (xenv : XEnv) : List Field → Dict → Except Err Dict
   | [], _ => .ok []
   | f :: fs, given =>
-    match dget given f.name with
-    | some v =>
-      match validate xenv f.ty v with
-      | some v' => (validateFields xenv fs given).map (fun rest => (f.name, v') :: rest)
-      | none => .error .laxOrInvalid
-    | none =>
-      match f.dflt with
-      | some d => (validateFields xenv fs given).map (fun rest => (f.name, d) :: rest)
-      | none => .error .missing
+    let here : Except Err Json :=
+      match dget given f.name with
+      | some v =>
+        match validate xenv f.ty v with
+        | some v' => .ok v'
+        | none => .error (fieldError xenv f.ty v)
+      | none =>
+        match f.dflt with
+        | some d => .ok d
+        | none => .error .missing
+    match here, validateFields xenv fs given with
+    | .ok v, .ok rest => .ok ((f.name, v) :: rest)
+    | .ok _, .error e => .error e
+    | .error e, rest => .error (combineErr e rest)
 
 /-- the second half of `DictLikeModel.__init__`: set the private attributes that were
 passed by name, then `_data.update(data)` -/
@@ -503,20 +539,32 @@ def serializeKvs : List (String × PyVal) → Dict
   | (k, x) :: xs => (k, serializeValue x) :: serializeKvs xs
 end
 
-/-- the wrapper branch of `deserialize_value` -/
-def unwrapModel (cenv : CEnv) (xenv : XEnv) (kvs : Dict) : Except Err Inst :=
+/-- `import_module_from_qualified_name(data["qualified_name"])` -/
+def importName (cenv : CEnv) (kvs : Dict) : Except Err Shape :=
   match dget kvs Gen.EventSerial.pydNameKey with
   | some (.str q) =>
     match dget cenv q with
-    | some c =>
-      match dget kvs Gen.EventSerial.pydValueKey with
-      | some v => modelValidate xenv c v
-      | none => .error .keyError
+    | some c => .ok c
     | none => .error .importError
   -- `"." not in qualified_name` on a list / dict (that does not contain ".") is true: `ValueError`
   | some (.arr _) => .error .importError
   | some (.obj _) => .error .importError
   | _ => .error .badQualName
+
+/-- the wrapper branch of `deserialize_value` -/
+def unwrapModel (cenv : CEnv) (xenv : XEnv) (kvs : Dict) : Except Err Inst :=
+  match importName cenv kvs with
+  | .error e => .error e
+  | .ok c =>
+    match dget kvs Gen.EventSerial.pydValueKey with
+    | some v => modelValidate xenv c v
+    | none => .error .keyError
+
+/-- the component branch: the class is imported first, then `from_dict` (not modelled) -/
+def unwrapComponent (cenv : CEnv) (kvs : Dict) : Err :=
+  match importName cenv kvs with
+  | .error e => e
+  | .ok _ => .component
 
 def looksPydantic (kvs : Dict) : Bool :=
   truthyGet kvs Gen.EventSerial.pydFlagKey && truthyGet kvs Gen.EventSerial.pydNameKey
@@ -534,7 +582,7 @@ def deserializeValue (cenv : CEnv) (xenv : XEnv) : Json → Except Err PyVal
   | .arr xs => (deserializeList cenv xenv xs).map .list
   | .obj kvs =>
     if looksPydantic kvs then (unwrapModel cenv xenv kvs).map .model
-    else if looksComponent kvs then .error .component
+    else if looksComponent kvs then .error (unwrapComponent cenv kvs)
     else (deserializeKvs cenv xenv kvs).map .dict
 def deserializeList (cenv : CEnv) (xenv : XEnv) : List Json → Except Err (List PyVal)
   | [] => .ok []
@@ -783,9 +831,10 @@ def decodeFieldsG {α : Type} (dec : FKind → Json → Except Err α) (inj : SV
         match f.dflt with
         | some v => .ok (inj v)
         | none => .error .missing
-    match here with
-    | .error e => .error e
-    | .ok v => (decodeFieldsG dec inj fs d).map (fun rest => v :: rest)
+    match here, decodeFieldsG dec inj fs d with
+    | .ok v, .ok rest => .ok (v :: rest)
+    | .ok _, .error e => .error e
+    | .error e, rest => .error (combineErr e rest)
 
 def encodeFields : List FSpec → List SVal → Except Err Dict := encodeFieldsG encodeS
 
@@ -844,9 +893,10 @@ def encodeRecs (rspecs : List RecSpec) : List Rec → Except Err (List Json)
 def decodeRecs (cenv : CEnv) (xenv : XEnv) (rspecs : List RecSpec) : List Json → Except Err (List Rec)
   | [] => .ok []
   | j :: js =>
-    match decodeRec cenv xenv rspecs j with
-    | .error e => .error e
-    | .ok r => (decodeRecs cenv xenv rspecs js).map (fun rest => r :: rest)
+    match decodeRec cenv xenv rspecs j, decodeRecs cenv xenv rspecs js with
+    | .ok r, .ok rest => .ok (r :: rest)
+    | .ok _, .error e => .error e
+    | .error e, rest => .error (combineErr e rest)
 
 def encodeT (rspecs : List RecSpec) : FKind → TVal → Except Err Json
   | .results, .results rs => (encodeRecs rspecs rs).map .arr
